@@ -42,6 +42,14 @@ RD_ASSUME = [
     "exact polynomial rewriting (pyvc/nl.py) and instantiated multiplication-monotonicity lemmas",
 ]
 
+SPLIT_ASSUME = [
+    "split() is verified against the interface of the reader (block_dur, sr, sw, ch, open, read) and the constructor "
+    "contracts of AudioReader (C10), AudioEnergyValidator (C07), StreamTokenizer (C02) and tokenize() (C08)",
+    "**kwargs is modelled as a finite map over the documented keys, each with a symbolic presence flag",
+    "float arithmetic outside _duration_to_nb_windows is read as real arithmetic",
+    "generator expressions are lazy, order-preserving maps (Python semantics, assumed)",
+]
+
 REGISTRY = {
     "C01": {"module": "props.tokenizer", "units": ["lemmas", "process", "post_process", "iter_tokens"],
             "witness": "tok", "assumptions": TOK_ASSUME},
@@ -54,14 +62,33 @@ REGISTRY = {
                 "the 'consequently' sentences of C04 are read as corollaries of Emit-equivalence; lemma E "
                 "(piece inside its stretch, stretch starts valid) is proved, the coverage corollary is proved "
                 "for the delivered-token rule only (DESIGN 5, C04)"]},
-    "C08": {"module": "props.tokenizer", "units": ["lemmas", "process", "post_process", "iter_tokens", "tokenize"],
-            "witness": "tok", "assumptions": TOK_ASSUME},
+    "C05": {"parts": [{"module": "props.split", "units": ["split", "make_region", "blocks_lemma", "region_split"]},
+                      {"module": "props.regions", "units": ["post_init", "concat_lemma"]},
+                      {"module": "props.readers", "units": ["fixed", "audioreader"]}],
+            "witness": "api", "assumptions": SPLIT_ASSUME + [
+                "the last sentence of C05 (regions are the tokenizer segmentation of the per-window decisions) is the "
+                "composition of the split wiring proved here with C01-C04 (tokenizer) and C07 (validator) by modularity",
+                "start*rate == a*B and end - start == duration hold over the reals (float products read as real arithmetic)"]},
+    "C06": {"parts": [{"module": "props.split", "units": ["dtnw", "split"]},
+                      {"module": "props.readers", "units": ["fixed"]}],
+            "witness": "api", "assumptions": SPLIT_ASSUME + [
+                "_duration_to_nb_windows is proved in exact binary64 semantics for every float quotient: one linear-integer "
+                "problem per binary exponent (83 slices cover [2**-30, 2**53)), plus (0, 2**-30) and integers >= 2**53; "
+                "the quotient itself (fl(duration/analysis_window)) is taken as given, finite and positive; "
+                "the only IEEE fact used is that a correctly rounded subtraction returns the exact result when it is "
+                "representable (representability is an obligation of each slice)",
+                "1e-9 is read as the Python literal (the double nearest to 10**-9) in code and spec",
+                "the event-level sentences of C06 are C02/C03/C04 instantiated with the proved window counts"]},
+    "C08": {"parts": [{"module": "props.tokenizer", "units": ["lemmas", "process", "post_process", "iter_tokens", "tokenize"]},
+                      {"module": "props.split", "units": ["split"]},
+                      {"module": "props.readers", "units": ["fixed", "overlap_iter", "overlap_misc"]}],
+            "witness": "tok", "assumptions": TOK_ASSUME + ["split(): the AudioReader / tokenizer constructors are used by contract"]},
     "C10": {"module": "props.readers", "units": ["limiter", "fixed", "overlap_iter", "overlap_misc", "audioreader"],
-            "witness": "reader", "assumptions": RD_ASSUME},
+            "witness": "api", "assumptions": RD_ASSUME},
     "C19": {"module": "props.readers", "units": ["limiter", "overlap_iter", "overlap_misc", "recorder", "replay_lemma", "audioreader"],
-            "witness": "reader", "assumptions": RD_ASSUME},
+            "witness": "api", "assumptions": RD_ASSUME},
     "C11": {"module": "props.sources", "units": ["buffer_init", "buffer_read", "buffer_position", "file_read", "file_open"],
-            "witness": "source", "assumptions": [
+            "witness": "api", "assumptions": [
                 "library models (assumed contracts): binary stream.read(k) / wave.readframes(k) return the next "
                 "min(k, remaining) bytes / frames (None or negative: all remaining; sys.stdin.buffer.read rejects k < -1) "
                 "and b'' at the end; open()/wave.open() return a stream positioned at the start of the named file; "
